@@ -122,9 +122,13 @@ def run(chk):
         ag = [x for x in find_aggs(gi, "Options") if "rk" in x[2]["fields"]]
         if chk.require("T3 get_info rk", "T3|options", len(ag) == 1, where(gi), "get_info::Options construction not found"):
             bb, i, rv = ag[0]
-            rk = flow.simplify_term(T.operand(rv["ops"][rv["fields"].index("rk")], bb, i))
-            t3_ok = is_call(rk, "PartialEq::ne") and has(rk, lambda x: is_call(x, "CredentialStore::get_info")) and has(rk, lambda x: isinstance(x, tuple) and len(x) == 3 and x[0] == "field" and x[2] == "discoverability") \
-                and has(rk, lambda x: isinstance(x, tuple) and len(x) == 4 and x[0] == "agg" and x[2] == "OnlyNonDiscoverable") and has(rk, lambda x: x == ("field", ("upvar", 0), "store"))
+            rk = N.inline(T.operand(rv["ops"][rv["fields"].index("rk")], bb, i))
+            e = flow.eq_test(rk, ("notin", "0"))
+            t3_ok = False
+            if e is not None and e[1] is False and len(e[0]) == 2:
+                cap = [x for x in e[0] if isinstance(x, tuple) and len(x) == 3 and x[0] == "field" and x[2] == "discoverability"]
+                lit = [x for x in e[0] if isinstance(x, tuple) and len(x) == 4 and x[0] == "agg" and x[2] == "OnlyNonDiscoverable"]
+                t3_ok = bool(cap) and bool(lit) and has(cap[0], lambda x: is_call(x, "CredentialStore::get_info")) and has(cap[0], lambda x: x == ("field", ("upvar", 0), "store"))
             chk.ob("T3 get_info rk", "T3|rk", t3_ok, where(gi, bb), "options.rk = %s" % flow.term_str(rk))
 
     # ---------------- R4 / R5
@@ -184,7 +188,7 @@ def run(chk):
     reo = p.method(CLIENT, "registration_extension_outputs")
     if chk.require("R6 credProps", "R6|registration_extension_outputs", reo, CLIENT, "registration_extension_outputs not found"):
         chk.touched(reo)
-        outs = S.local_outcomes(reo)
+        outs = normal.rows(S, reo, N, expand=False)
         present, absent = [], []
         for o in outs:
             cp = dict(o.value[3]).get("cred_props") if o.value[0] == "agg" else None
@@ -193,26 +197,30 @@ def run(chk):
             (present if cp[0] == "agg" and cp[2] == "Some" else absent).append((o, cp))
         ok = len(present) >= 1 and len(absent) >= 1
         w = ""
+        some_true = normal.some(("const", 1))
+
+        def requested(o):
+            """the row asserts request.cred_props == Some(true); -> the tested member term or None"""
+            for t, l, fn, w2 in o.conds:
+                e = flow.eq_test(t, l)
+                if e is not None and e[1] is True and some_true in e[0]:
+                    other = [x for x in e[0] if x != some_true]
+                    if other:
+                        return other[0]
+            return None
+        clo_ok = bool(present)
         for o, cp in present:
-            reqd = any(is_call(t, "PartialEq::eq") and has(t, lambda x: is_call(x, "Option::and_then")) and has(t, lambda x: isinstance(x, tuple) and len(x) == 4 and x[0] == "agg" and x[2] == "Some" and dict(x[3]).get("0") == ("const", 1)) and flow.lab_true(l) for t, l, fn, w2 in o.conds)
+            member = requested(o)
             inner = dict(cp[3]).get("0")
             disc = dict(inner[3]).get("discoverable") if inner and inner[0] == "agg" else None
             v = dict(disc[3]).get("0") if disc and disc[0] == "agg" and disc[2] == "Some" else None
             vok = v is not None and is_call(v, "DiscoverabilitySupport::is_passkey_discoverable") and v[2][0] == ("field", ("param", 3), "discoverability") and v[2][1] == ("param", 4)
-            ok = ok and reqd and vok
+            ok = ok and member is not None and vok
+            clo_ok = clo_ok and member is not None and member[0] == "field" and member[2] == "cred_props" and has(member, lambda x: x == ("param", 2))
             w = "credProps = %s under %s" % (flow.term_str(cp)[:160], [c[-70:] for c in o.cond_strs()])
         for o, cp in absent:
-            notreq = any(is_call(t, "PartialEq::eq") and flow.lab_false(l) for t, l, fn, w2 in o.conds)
-            ok = ok and notreq
+            ok = ok and requested(o) is None
         chk.ob("R6 credProps", "R6|present-iff-requested-true|value", ok, where(reo), w or "rows not recognised")
-        # the closure reads ext.cred_props
-        clo_ok = False
-        for o, cp in present:
-            for t, l, fn, w2 in o.conds:
-                for x in _sub(t):
-                    r = closure_ret(p, x)
-                    if r is not None and r[0] == "field" and r[2] == "cred_props":
-                        clo_ok = True
         chk.ob("R6 credProps", "R6|requested-flag-is-credProps", clo_ok, where(reo), "the tested request member is `cred_props`: %s" % clo_ok)
     reg = ceremony(p, "register", adt=CLIENT)
     if chk.require("R6 credProps", "R6|register", reg, CLIENT, "Client::register not found"):
